@@ -178,6 +178,9 @@ def run(db, chk):
                 "concave equation (slope exponent < 1) the first Newton step overshoots to a large "
                 "NEGATIVE residual and is accepted as converged", extra={"unit": fn.unit.name})
     n_sc += equation_rules(db, chk)
+    chk.absorb(db, "C12", {"C12-V2"}, "C13-L3", "the erosion array and the correction counter are reset at every "
+               "step (shared with C12-V2): a lake node, which writes nothing, must read zero erosion",
+               min_instances=3)
     chk.count_scenarios(n_sc, True)
 
 
